@@ -41,7 +41,12 @@ def run(P, rep, tier):
                        'That a diagnostic about a directive names the directive\'s line is decided on one generic iteration of the directive dispatcher entered on a `#` at the beginning of a line: '
                        'helpers are summarised per known facts about their token arguments, and a diagnostic (or a token kept for a later one) that on every explored path is located at a token '
                        'behind the end of the directive\'s line -- the continuation skip_line / copy_line hand back -- is a violation (R18.9; loops are followed for two generic iterations, '
-                       'recursion is cut, so a site reached with a token on the line only beyond those bounds would be misjudged). '
+                       'recursion is cut, so a site reached with a token on the line only beyond those bounds would be misjudged; a whole-struct copy of a token is where that token is, '
+                       'and the end-of-list token a helper appends to the copied line is a judged site too). '
+                       'R18.10: over the call graph of all units, the scanner functions from which the byte-level diagnostic (error_at, relative to the file-scope scanned file) is reachable are called '
+                       'only from the scanner or after the caller made its token\'s file current (path-insensitive: a guarded call counts as a call). '
+                       'R18.11: the number argument of every new_file call is the registering function\'s fresh number or a template file\'s number. '
+                       'R18.6 also decides that the #line operand is read as decimal (strto* with base 10 on the spelling, not Token.val of the integer-constant conversion). '
                        'Not decided: positions for all inputs end to end.')
     rep.assumptions += ['the output cursor of an in-place filter never overtakes its input cursor (reads see unmodified input)',
                         'no token starts at a newline character', 'calloc succeeds',
